@@ -2,7 +2,7 @@
 from contracts import core, lists, bind, rt_errors, rt_misc
 from pyvc.report import Report
 from pyvc.rtver import RtCx
-from .common import run_fragments, run_rt, run_vcs
+from .common import run_fragments, run_rt, run_vcs, dependency_layer
 
 
 def fpos_filter(name):
@@ -25,4 +25,5 @@ def run(tier, seed):
     rep.assumptions.append('re contract for the line-break search: search(text, k) returns the first index >= k holding a line break, or None')
     rep.assumptions.append('strings are modelled as ropes (literal pieces, un-clipped slices of the text, runs of spaces); no string solver involved')
     rep.assumptions.append('the statement about the message text is about its structure (pieces); f-string formatting of ints is not modelled')
+    dependency_layer(rep, tier)
     return rep.finish()
